@@ -54,13 +54,19 @@ def class_sweep(chk, rng, per_vector, all_entry_points=False):
     vectors = sweep.library_vectors()
     evals = 0
     kinds = {}
+    by_module = {}
+    for cls in vectors:
+        by_module.setdefault(cls.__module__, []).append(cls)
     for cls in sorted(vectors, key=sweep.qualname):
         name = sweep.qualname(cls)
+        siblings = [rng.choice(vectors[c]) for c in by_module[cls.__module__] if c is not cls]
+        rng.shuffle(siblings)
         for v in vectors[cls]:
             bufs = [v] + [sweep.mutate(rng, v) for _ in range(per_vector)]
             if rng.random() < 0.3:
                 bufs.append(sweep.mutate(rng, sweep.mutate(rng, v)))
             bufs.append(bytes(rng.getrandbits(8) for _ in range(rng.randint(0, 10))))
+            bufs += sweep.directed(rng, v, siblings, 2 * per_vector)
             for b in bufs:
                 evals += 1
                 for ep, key, line, e in leaks(cls, b, all_entry_points):
@@ -142,7 +148,9 @@ def run(chk):
                             'function (integers, mpints, timestamps, enum factories, fallback classes, enum vectors, ALPN names, framing units): '
                             'outcome kind and leaked exception class compared between the extracted Coq model and the implementation; plus an '
                             'implementation-only sweep over all classes reached by the repository tests: each accepted test vector, several '
-                            'mutations of it (bit flips, length-field edits, truncation, splices, duplication) and random bytes through the parse '
+                            'mutations of it (bit flips, length-field edits, truncation, splices, duplication), directed malformations (a field emptied, a '
+                            'code walked through small values, zeroed words and counts, digit runs beyond the integer conversion limit, line-end '
+                            'variants, the accepted input of a sibling class) and random bytes through the parse '
                             'entry points, every exception outside the four documented ones reported by root cause; non-trivial = distinct '
                             'modelled-stream commands that get past the first length check')
     chk.assumptions += ['classes without a Coq model are covered by the implementation-only sweep (exploration), not by a theorem',
